@@ -1089,8 +1089,11 @@ def stack_files(fs, stackdim, coordkeys=None):
     from PseudoNetCDF.sci_var import Pseudo2NetCDF
     p2p = Pseudo2NetCDF(verbose=0)
     p2p.addDimensions(tmpf, f)
-    f.createDimension(stackdim, sum(
+    newdim = f.createDimension(stackdim, sum(
         [len(dims[stackdim]) for dims in dimensions]))
+    # as in PseudoNetCDFFile.stack: the stacked dimension stays a record
+    # dimension if it is one in the first file
+    newdim.setunlimited(tmpf.dimensions[stackdim].isunlimited())
     p2p.addGlobalProperties(tmpf, f)
     for tmpf in fs:
         for varkey, var in tmpf.variables.items():
